@@ -74,6 +74,17 @@ def gen_case(rng, tier, index):
                              formats=("fb", "npz", "fb", "npz", "tfrec"),
                              hashes=algos, meta_modes=("none",),
                              max_writers=2)
+    if rng.random() < 0.35:
+        # metadata files around / above one hashing block, with multi-byte
+        # characters (bytes != characters)
+        spec = ["big", rng.choice([43690, 43691, 66000, 70000, 131072]),
+                rng.choice([0xE9, 0x65E5, 0x41, 0x1F600])]
+        for ses in hist["sessions"]:
+            ws = ses.get("writes") or [w for x in ses.get("writers", [])
+                                       for w in x]
+            for w in ws[:1] + ws[-1:]:
+                w["meta"] = list(spec)
+        hist["big_meta"] = True
     case = C.base_case(rng, hist)
     case["kind"] = "session"
     case["short"] = rng.random() < 0.8
@@ -184,6 +195,8 @@ def run_case(case):
     res = esess.run_history(case, [], after_session=after_session,
                             short_read=case["short"])
     res.setdefault("probes", {})["session_family"] = 1
+    if case["hist"].get("big_meta"):
+        res["probes"]["metadata_file_larger_than_a_block_non_ascii"] = 1
     return res
 
 
@@ -206,7 +219,8 @@ def reach(agg):
     need = []
     p, f = agg["probes"], agg["faults"]
     for name in ("size_multiple_of_buffer", "larger_than_buffer", "empty_file",
-                 "repeated_algorithm", "all_13_algorithms", "session_family"):
+                 "repeated_algorithm", "all_13_algorithms", "session_family",
+                 "metadata_file_larger_than_a_block_non_ascii"):
         if not p.get(name):
             need.append(f"probe {name} never hit")
     if not f.get("short_read"):
